@@ -40,7 +40,7 @@ def render_ppt(doc, *, images=None, opts=None, **kw) -> bytes:
             else:
                 other.extend(plain_lines([b]))
         notes = [" ".join(i["tok"] for i in u["notes"] if i["k"] == "t")] if u.get("notes") else []
-        slides.append({"title": title, "body": body, "other": other, "notes": notes})
+        slides.append({"title": title, "body": body, "other": other, "notes": notes, "two_titles": bool(opts.get("two_titles"))})
     pictures = [(("png" if im["ext"] == "png" else "jpeg"), im["data"]) for im in (images or [])] or None
     return pptbin.write_ppt(slides, props=ole_props(doc.get("props")), codepage=pick_codepage(opts, doc.get("props")), pictures=pictures,
                             text_placement=opts.get("text_placement", "both"))
